@@ -27,6 +27,8 @@ func c01(p *core.Prog, r *core.Report) {
 	c01Flags(p, r)
 	c01Accounting(p, r)
 	c01Reader(p, r)
+	r.Rule("C01-R8", "E6 provenance/guards", 3, "io contracts at the argument seam: Write reports the total, Read the bytes copied; EnsureEmpty reports trailing bytes whatever error accompanies them")
+	c01IO(p, r)
 }
 
 func isErrGuarded(b *ssa.BasicBlock) bool {
@@ -376,4 +378,151 @@ func c01Reader(p *core.Prog, r *core.Report) {
 		}
 	})
 	r.Check(okLast, "C01-R7", fname(f), "last argument closes successfully only with no chunks and no fragments left", p.Pos(f.Pos()), "nil return guarded by len(remainingChunks)==0 && !hasMoreFragments", "the reader can report the message complete while chunks or fragments remain")
+}
+
+// c01IO: the io.Writer / io.Reader contracts of the fragmenting writer and
+// reader, which callers such as io.Copy and bufio rely on (a short count with
+// a nil error makes them fail or re-send data), and the trailing-bytes check
+// used by the thrift/json layers after parsing an argument.
+func c01IO(p *core.Prog, r *core.Report) {
+	if f := mustFunc(p, r, "", "fragmentingWriter", "Write"); f != nil {
+		was := core.CallsIn(f, "writableChunk.writeAsFits")
+		var add *ssa.BinOp
+		var acc *ssa.Phi
+		if len(was) == 1 {
+			wv := was[0].Value()
+			core.EachInstr(f, func(i ssa.Instruction) {
+				bo, ok := i.(*ssa.BinOp)
+				if !ok || bo.Op != token.ADD {
+					return
+				}
+				for _, pr := range [][2]ssa.Value{{bo.X, bo.Y}, {bo.Y, bo.X}} {
+					ph, isPhi := pr[0].(*ssa.Phi)
+					if !isPhi || pr[1] != ssa.Value(wv) {
+						continue
+					}
+					zero, self := false, false
+					for _, e := range ph.Edges {
+						if k, isK := core.ConstInt(e); isK && k == 0 {
+							zero = true
+						}
+						if e == ssa.Value(bo) {
+							self = true
+						}
+					}
+					if zero && self {
+						add, acc = bo, ph
+					}
+				}
+			})
+		}
+		ok, how := add != nil, "no running total of the bytes accepted by writeAsFits"
+		if ok {
+			core.EachInstr(f, func(i ssa.Instruction) {
+				ret, isRet := i.(*ssa.Return)
+				if !isRet || !core.IsNilConst(core.ReturnValues(ret)[1]) {
+					return
+				}
+				if v := core.ReturnValues(ret)[0]; v != ssa.Value(add) {
+					ok, how = false, "a successful Write returns "+desc(v)+" instead of the total number of bytes accepted (io.Writer: n < len(p) with a nil error)"
+				}
+			})
+			// the remainder written next is b[bytesWritten:]
+			rest := false
+			core.EachInstr(f, func(i ssa.Instruction) {
+				if sl, isSl := i.(*ssa.Slice); isSl && sl.Low == ssa.Value(was[0].Value()) && sl.High == nil {
+					rest = true
+				}
+			})
+			if ok && !rest {
+				ok, how = false, "the loop does not continue with b[bytesWritten:]"
+			}
+		}
+		_ = acc
+		r.Check(ok, "C01-R8", fname(f), "Write returns the sum of the pieces written; continues with the unwritten rest", p.Pos(f.Pos()), "success return = running total; b = b[n:]", how)
+	}
+	if f := mustFunc(p, r, "", "fragmentingReader", "Read"); f != nil {
+		// every return's count is the running total of the copy() results
+		var add *ssa.BinOp
+		core.EachInstr(f, func(i ssa.Instruction) {
+			bo, ok := i.(*ssa.BinOp)
+			if !ok || bo.Op != token.ADD {
+				return
+			}
+			for _, pr := range [][2]ssa.Value{{bo.X, bo.Y}, {bo.Y, bo.X}} {
+				ph, isPhi := pr[0].(*ssa.Phi)
+				c, isC := pr[1].(*ssa.Call)
+				if !isPhi || !isC {
+					continue
+				}
+				if b, isB := c.Call.Value.(*ssa.Builtin); !isB || b.Name() != "copy" {
+					continue
+				}
+				for _, e := range ph.Edges {
+					if e == ssa.Value(bo) {
+						add = bo
+					}
+				}
+			}
+		})
+		ok, how := add != nil, "no running total of the bytes copied"
+		if ok {
+			core.EachInstr(f, func(i ssa.Instruction) {
+				ret, isRet := i.(*ssa.Return)
+				if !isRet {
+					return
+				}
+				v := core.ReturnValues(ret)[0]
+				if k, isK := core.ConstInt(v); isK && k == 0 {
+					return // early error returns before anything was copied
+				}
+				if v != ssa.Value(add) {
+					ok, how = false, "Read returns "+desc(v)+" instead of the number of bytes copied"
+				}
+			})
+		}
+		r.Check(ok, "C01-R8", fname(f), "Read returns the number of bytes copied into the caller's buffer", p.Pos(f.Pos()), "every non-zero count returned is the running total of copy()", how)
+	}
+	if f := mustFunc(p, r, "internal/argreader", "", "EnsureEmpty"); f != nil {
+		var rd *ssa.Call
+		core.EachInstr(f, func(i ssa.Instruction) {
+			if c, ok := i.(*ssa.Call); ok && c.Call.IsInvoke() && c.Call.Method.Name() == "Read" {
+				rd = c
+			}
+		})
+		ok, how := rd != nil, "no Read of the reader"
+		if ok {
+			var nV ssa.Value
+			for _, ref := range *rd.Referrers() {
+				if e, isE := ref.(*ssa.Extract); isE && e.Index == 0 {
+					nV = e
+				}
+			}
+			// every return not guarded by n <= 0 must be the trailing-bytes error: i.e. no
+			// return is reachable from the Read on the n > 0 side except through the arm that reports it
+			isPosTest := func(i ssa.Instruction) bool {
+				ifi, isIf := i.(*ssa.If)
+				if !isIf {
+					return false
+				}
+				bo, isBO := ifi.Cond.(*ssa.BinOp)
+				return isBO && ((bo.Op == token.GTR && bo.X == nV) || (bo.Op == token.NEQ && bo.X == nV) || (bo.Op == token.LSS && bo.Y == nV))
+			}
+			res := core.ReachAvoiding(f, rd, core.IsReturn, isPosTest, nil)
+			if nV == nil || res.Found {
+				ok, how = false, "EnsureEmpty can return before testing the byte count (a Read that yields data together with io.EOF is reported as empty): "+p.TrailString(res)
+			} else {
+				// the n > 0 arm returns a non-nil error
+				core.EachInstr(f, func(i ssa.Instruction) {
+					if isPosTest(i) {
+						arm := i.Block().Succs[0]
+						if ret, isRet := arm.Instrs[len(arm.Instrs)-1].(*ssa.Return); !isRet || core.IsNilConst(core.ReturnValues(ret)[0]) {
+							ok, how = false, "the n > 0 arm does not return an error"
+						}
+					}
+				})
+			}
+		}
+		r.Check(ok, "C01-R8", fname(f), "trailing bytes are an error even when the Read also reports EOF", p.Pos(f.Pos()), "the byte count is tested before any return", how)
+	}
 }
